@@ -202,3 +202,22 @@ Theorem src_break_meets_spec : forall z h t fuel, zone_ok z = true -> int64 t ->
     /\ info_of z (zid (abs_zone z) t) = OK (dst, ab).
 Proof. exact src_zone_break_meets_spec. Qed.
 Print Assumptions src_break_meets_spec.
+
+From CCTZ Require Import SourceDecodeProofs SourceLoad SourceLoadProofs.
+(* THE LOADER AS CLANG READS IT NOW (SourceLoad.v, regenerated by gen/ast_translate_load.py from the current
+   time_zone_info.cc: Header::Build, Header::DataLength, GetTransitionType, ExtendTransitions and Load(ZoneInfoSource *zip)
+   itself - the source as a byte list + cursor, unset header members as Err Uninit, vector aliases invalidated on resize,
+   byte pointers with strict bounds): whatever the hand-written load_bytes decides for a byte string - accept with zone z,
+   or reject - the source-derived Load decides the same and builds the same zone. *)
+Theorem src_load_accepts : forall bs z ver zver d0 a0 f0 e0 ly0 fuel,
+  bytes_ok bs -> Z.of_nat (length bs) < 2 ^ 62 -> (length bs + 1300 <= fuel)%nat ->
+  load_bytes bs = OK (Some z) ->
+  exists ver' rest, sl_Load fuel (mkZone [] [] d0 a0 f0 e0 ly0) ver bs zver = OK (true, load_result ly0 z, ver', rest).
+Proof. exact sl_Load_accepts. Qed.
+Print Assumptions src_load_accepts.
+Theorem src_load_rejects : forall bs ver zver d0 a0 f0 e0 ly0 fuel,
+  bytes_ok bs -> Z.of_nat (length bs) < 2 ^ 62 -> (length bs + 1300 <= fuel)%nat ->
+  load_bytes bs = OK None ->
+  exists z' ver' rest, sl_Load fuel (mkZone [] [] d0 a0 f0 e0 ly0) ver bs zver = OK (false, z', ver', rest).
+Proof. exact sl_Load_rejects. Qed.
+Print Assumptions src_load_rejects.
